@@ -558,9 +558,10 @@ def binopType (sc : Bool) (op : BinOp) (l r : Operand) : Option Ty :=
       match l'.ty with
       | .ptr _ lb =>
         if r'.nullconst then some Ty.int
-        else if l'.nullconst then some Ty.int
         else match r'.ty with
-          | .ptr _ rb => if ptrEqOk lb rb then some Ty.int else none
+          -- `if (r->type->kind != TYPEPOINTER) error(...)` comes before the `nullpointer(eval(l))`
+          -- shortcut (fix 2e6f4ec)
+          | .ptr _ rb => if l'.nullconst then some Ty.int else if ptrEqOk lb rb then some Ty.int else none
           | _ => none
       | _ => none
   | .less | .greater | .leq | .geq =>
@@ -591,7 +592,8 @@ def binopType (sc : Bool) (op : BinOp) (l r : Operand) : Option Ty :=
         else if lb.incomplete || lb.isFunc then none
         else if r.ty.isInt then some l.ty
         else match r.ty with
-          | .ptr _ rb => if typecompatible lb rb then some Ty.long else none
+          -- `if (r->type->base->incomplete) error(...)` after the compatibility test (fix 802a13f)
+          | .ptr _ rb => if typecompatible lb rb then (if rb.incomplete then none else some Ty.long) else none
           | _ => none
       | _ => none
   | .mod =>
@@ -620,6 +622,8 @@ def condRes (sc : Bool) (l r : Operand) : Option (Ty × Operand × Operand) :=
 /-- `condexpr`: type of `c ? l : r`.  `cond` is the controlling operand (only its `constval`
 matters: the constant-condition shortcut returns `exprconvert(c ? l : r, t)`). -/
 def condType (sc : Bool) (cond l r : Operand) : Option Ty :=
+  -- `if (!(e->type->prop & PROPSCALAR)) error(...)` (fix 8620260)
+  if !cond.ty.isScalar then none else
   match condRes sc l r with
   | none => none
   | some (t, l', r') =>
@@ -631,6 +635,7 @@ def condType (sc : Bool) (cond l r : Operand) : Option Ty :=
 the selected operand itself after `exprconvert` (which may leave it untouched: it then still is
 the lvalue / bit-field / constant it was) -/
 def condOperand (sc : Bool) (cond l r : Operand) : Option Operand :=
+  if !cond.ty.isScalar then none else
   match condRes sc l r with
   | none => none
   | some (t, l', r') =>
@@ -641,9 +646,11 @@ def condOperand (sc : Bool) (cond l r : Operand) : Option Operand :=
 theorem condOperand_ty (sc : Bool) (cond l r : Operand) :
     (condOperand sc cond l r).map (·.ty) = condType sc cond l r := by
   unfold condOperand condType
-  cases condRes sc l r with
-  | none => rfl
-  | some x => cases cond.constval <;> rfl
+  cases cond.ty.isScalar
+  · rfl
+  · cases condRes sc l r with
+    | none => rfl
+    | some x => cases cond.constval <;> rfl
 
 inductive UnOp
   | addr | deref | plus | minus | bnot | lnot | sizeofE | alignofE | preinc | predec | postinc | postdec
@@ -692,6 +699,8 @@ def unaryOp (sc : Bool) (op : UnOp) (e : Operand) : Option Operand :=
   | .preinc | .predec | .postinc | .postdec =>
     if !e.lvalue then none
     else if e.qual.c then none
+    -- pointer to an incomplete or function type (fix 93895c0)
+    else if (match e.ty with | .ptr _ b => b.incomplete || b.isFunc | _ => false) then none
     else some (rvalue e.ty)
 
 /-- `sizeof (type-name)` / `_Alignof (type-name)` -/
